@@ -347,3 +347,189 @@ theorem wp_loadOrGenInt_absent {Q : Pair → Store → Nat → Prop} (ord : Orde
 end summaries
 
 end CaddyModel.C14
+
+namespace CaddyModel.C14
+
+/-! ### the three phases of a start-up under the reachable-state invariant -/
+
+/-- after `loadOrGenRoot` returned: a complete, self-signed root is stored and in hand -/
+def RootOK (t : Nat) (root : Pair) (s : Store) : Prop :=
+  InvAt t s ∧ s .rootCrt = some root.crt ∧ s .rootKey = some root.key ∧
+  root.signer = root.pub ∧ root.keyId = root.pub
+
+/-- after `Provision` returned: additionally an intermediate signed by that root is stored and
+    in hand, with SOME intermediate key — its own, unless the certificate is due for renewal -/
+def ProvOK (t : Nat) (m : Mem) (s : Store) : Prop :=
+  RootOK t m.root s ∧ s .intCrt = some m.inter.crt ∧ s .intKey = some m.inter.key ∧
+  m.inter.signer = m.root.pub ∧ (m.inter.keyId = m.inter.pub ∨ m.inter.renewAt ≤ t)
+
+theorem phase_root (t now : Nat) (s : Store) (fr : Nat) (h : InvAt t s) :
+    wp (InvAt t) (fun s' _ => InvAt t s') (loadOrGenRoot .keyFirst now) (fun root s' _ => RootOK t root s') s fr := by
+  cases hrc : s .rootCrt with
+  | none =>
+    apply wp_loadOrGenRoot_absent now s fr hrc h h
+    rw [wp_storePair_keyFirst]
+    have h1 := h.set_rootKey hrc fr
+    have h2 := h1.set_rootCrt (by simp [hrc]) fr (now + rootLife) (by simp)
+    exact ⟨h, h1, h, h1, h2, h2, h2, by simp [Pair.crt], by simp [Pair.key], rfl, rfl⟩
+  | some b =>
+    apply wp_loadOrGenRoot_present .keyFirst now s fr b hrc h h
+    intro p sg ra id hb hrk
+    obtain ⟨r, ra', h1, h2⟩ := h.root b hrc
+    rw [hb] at h1
+    cases h1
+    rw [hrk] at h2
+    cases h2
+    exact ⟨h, by simp [hrc, hb, Pair.crt], by simp [hrk, Pair.key], rfl, rfl⟩
+
+theorem phase_inter (t now life : Nat) (root : Pair) (s : Store) (fr : Nat) (h : RootOK t root s) :
+    wp (InvAt t) (fun s' _ => InvAt t s') (loadOrGenInt .keyFirst now life root)
+      (fun inter s' _ => ProvOK t ⟨root, inter⟩ s') s fr := by
+  obtain ⟨hinv, hrc, hrk, hsg, hkid⟩ := h
+  cases hic : s .intCrt with
+  | none =>
+    apply wp_loadOrGenInt_absent .keyFirst now life root s fr hic hinv hinv
+    apply wp_genInt .keyFirst now life root .genInt s fr hkid.symm
+    rw [wp_storePair_keyFirst]
+    have h1 := hinv.set_intKey fr (fun i r ra hh => by rw [hic] at hh; cases hh)
+    have hrc' : s .rootCrt = some (.cert root.pub root.pub root.renewAt) := by
+      rw [hrc, Pair.crt, hsg]
+    have h2 := h1.set_intCrt fr root.pub root.renewAt (now + life) (by simp [hrc']) (by simp)
+    rw [hkid]
+    refine ⟨hinv, h1, hinv, h1, h2, h2, ⟨h2, ?_, ?_, hsg, hkid⟩, ?_, ?_, rfl, Or.inl rfl⟩
+    · simp [hrc]
+    · simp [hrk]
+    · simp [Pair.crt]
+    · simp [Pair.key]
+  | some b =>
+    apply wp_loadOrGenInt_present .keyFirst now life root s fr b hic hinv hinv
+    intro p sg ra id hb hik
+    obtain ⟨i, r, ra', rra, j, h1, h2, h3, h4⟩ := hinv.inter b hic
+    rw [hb] at h1
+    cases h1
+    rw [hik] at h3
+    cases h3
+    simp only [hrc, Pair.crt, Option.some.injEq, Blob.cert.injEq] at h2
+    exact ⟨⟨hinv, hrc, hrk, hsg, hkid⟩, by simp [hic, hb, Pair.crt], by simp [hik, Pair.key], h2.1.symm, h4⟩
+
+theorem phase_renew (c : Cfg) (m : Mem) (s : Store) (fr : Nat) (h : ProvOK c.now m s) :
+    wp (InvAt c.now) (fun s' _ => InvAt c.now s') (renew .keyFirst c m) (fun _ s' _ => InvAt c.now s') s fr := by
+  obtain ⟨⟨hinv, hrc, hrk, hsg, hkid⟩, hic, hik, hisg, _⟩ := h
+  unfold renew
+  split
+  · rename_i hdue
+    rw [wp_orElse, wp_bind]
+    apply wp_loadOrGenRoot_present .keyFirst c.now s fr m.root.crt hrc hinv hinv
+    intro p sg ra id hb hrk'
+    rw [hrk, Pair.key] at hrk'
+    cases hrk'
+    simp only [Pair.crt] at hb
+    cases hb
+    rw [wp_bind]
+    apply wp_genInt .keyFirst c.now c.life _ .genInt s fr hkid.symm
+    rw [wp_storePair_keyFirst]
+    have hd : m.inter.renewAt ≤ c.now := by simpa [due] using hdue
+    have h1 := hinv.set_intKey fr (fun i r ra hh => by
+      rw [hic, Pair.crt] at hh; cases hh; exact hd)
+    have hrc' : s .rootCrt = some (.cert m.root.pub m.root.pub m.root.renewAt) := by
+      rw [hrc, Pair.crt, hsg]
+    have h2 := h1.set_intCrt fr m.root.pub m.root.renewAt (c.now + c.life) (by simp [hrc']) (by simp)
+    simp only [Pair.key, Pair.crt, wp]
+    rw [hkid]
+    exact ⟨hinv, h1, hinv, h1, h2, h2, h2⟩
+  · exact hinv
+
+/-- every exit of a start-up — return, error, death at any storage operation before or after
+    its effect — leaves a store that satisfies the invariant again -/
+theorem wp_startup_inv (c : Cfg) (s : Store) (fr : Nat) (h : InvAt c.now s) :
+    wp (InvAt c.now) (fun s' _ => InvAt c.now s') (startup .keyFirst c) (fun _ s' _ => InvAt c.now s') s fr := by
+  unfold startup provision
+  rw [wp_bind, wp_bind]
+  refine wp_mono (fun _ _ h => h) ?_ _ _ _ (phase_root c.now c.now s fr h)
+  intro root s1 fr1 hroot
+  rw [wp_bind]
+  refine wp_mono (fun _ _ h => h) ?_ _ _ _ (phase_inter c.now c.now c.life root s1 fr1 hroot)
+  intro inter s2 fr2 hprov
+  exact phase_renew c ⟨root, inter⟩ s2 fr2 hprov
+
+end CaddyModel.C14
+
+namespace CaddyModel.C14
+
+/-! ### the same three phases without a fault: they return, and what they return is right -/
+
+def noErr : Err → Store → Nat → Prop := fun _ _ _ => False
+
+theorem phaseN_root (t now : Nat) (s : Store) (fr : Nat) (h : InvAt t s) :
+    wpn noErr (loadOrGenRoot .keyFirst now) (fun root s' _ => RootOK t root s') s fr := by
+  unfold loadOrGenRoot
+  cases hrc : s .rootCrt with
+  | none =>
+    simp only [wpn, hrc, genRoot, storePair]
+    have h1 := h.set_rootKey hrc fr
+    have h2 := h1.set_rootCrt (by simp [hrc]) fr (now + rootLife) (by simp)
+    exact ⟨h2, by simp [Pair.crt], by simp [Pair.key], rfl, rfl⟩
+  | some b =>
+    obtain ⟨r, ra, h1, h2⟩ := h.root b hrc
+    subst h1
+    simp only [wpn, hrc, h2]
+    exact ⟨h, by simp [hrc, Pair.crt], by simp [h2, Pair.key], rfl, rfl⟩
+
+theorem phaseN_inter (t now life : Nat) (root : Pair) (s : Store) (fr : Nat) (h : RootOK t root s) :
+    wpn noErr (loadOrGenInt .keyFirst now life root) (fun inter s' _ => ProvOK t ⟨root, inter⟩ s') s fr := by
+  obtain ⟨hinv, hrc, hrk, hsg, hkid⟩ := h
+  unfold loadOrGenInt
+  cases hic : s .intCrt with
+  | none =>
+    simp only [wpn, hic, genInt, hkid, if_true, storePair]
+    have h1 := hinv.set_intKey fr (fun i r ra hh => by rw [hic] at hh; cases hh)
+    have hrc' : s .rootCrt = some (.cert root.pub root.pub root.renewAt) := by
+      rw [hrc, Pair.crt, hsg]
+    have h2 := h1.set_intCrt fr root.pub root.renewAt (now + life) (by simp [hrc']) (by simp)
+    refine ⟨⟨h2, ?_, ?_, hsg, hkid⟩, ?_, ?_, rfl, Or.inl rfl⟩
+    · simp [hrc]
+    · simp [hrk]
+    · simp [Pair.crt, Pair.key]
+    · simp [Pair.key]
+  | some b =>
+    obtain ⟨i, r, ra', rra, j, h1, h2, h3, h4⟩ := hinv.inter b hic
+    subst h1
+    simp only [wpn, hic, h3]
+    simp only [hrc, Pair.crt, Option.some.injEq, Blob.cert.injEq] at h2
+    exact ⟨⟨hinv, hrc, hrk, hsg, hkid⟩, by simp [hic, Pair.crt], by simp [h3, Pair.key], h2.1.symm, h4⟩
+
+theorem phaseN_renew (c : Cfg) (m : Mem) (s : Store) (fr : Nat) (h : ProvOK c.now m s) :
+    wpn noErr (renew .keyFirst c m) (fun m' s' _ => Complete s' m' ∧ m'.Consistent ∧ InvAt c.now s' ∧ m'.root = m.root) s fr := by
+  obtain ⟨⟨hinv, hrc, hrk, hsg, hkid⟩, hic, hik, hisg, hown⟩ := h
+  unfold renew
+  split
+  · rename_i hdue
+    have hd : m.inter.renewAt ≤ c.now := by simpa [due] using hdue
+    rw [wpn_orElse, wpn_bind]
+    unfold loadOrGenRoot
+    have hrc' : s .rootCrt = some (.cert m.root.pub m.root.pub m.root.renewAt) := by
+      rw [hrc, Pair.crt, hsg]
+    have hrk' : s .rootKey = some (.key m.root.pub) := by rw [hrk, Pair.key, hkid]
+    simp only [wpn, hrc', hrk', wpn_bind, genInt, if_true, storePair]
+    have h1 := hinv.set_intKey fr (fun i r ra hh => by
+      rw [hic, Pair.crt] at hh; cases hh; exact hd)
+    have h2 := h1.set_intCrt fr m.root.pub m.root.renewAt (c.now + c.life) (by simp [hrc']) (by simp)
+    refine ⟨⟨?_, ?_, ?_, ?_⟩, ⟨hsg, hkid, rfl, rfl⟩, h2, rfl⟩
+    · simp [hrc]
+    · simp [hrk]
+    · simp [Pair.crt, Pair.key]
+    · simp [Pair.key]
+  · rename_i hdue
+    have hnd : ¬ m.inter.renewAt ≤ c.now := by simpa [due] using hdue
+    exact ⟨⟨hrc, hrk, hic, hik⟩, ⟨hsg, hkid, hisg, hown.resolve_right hnd⟩, hinv, rfl⟩
+
+/-- an uninterrupted start-up on a store that satisfies the invariant returns, with a
+    consistent chain that is exactly what the store then holds -/
+theorem wpn_startup (c : Cfg) (s : Store) (fr : Nat) (h : InvAt c.now s) :
+    wpn noErr (startup .keyFirst c) (fun m s' _ => Complete s' m ∧ m.Consistent ∧ InvAt c.now s') s fr := by
+  unfold startup provision
+  rw [wpn_bind, wpn_bind]
+  have hr := phaseN_root c.now c.now s fr h
+  sorry
+
+end CaddyModel.C14
